@@ -389,58 +389,69 @@ func tameStars(k *kase) {
 	}
 }
 
-func genCases(o hx.Opts, r *hx.Rand) []*kase {
-	var ks []*kase
-	ks = append(ks, limitCases()...)
+// genBatches returns the case generators, one per batch (a batch is generated, run,
+// compared and dropped before the next one: the exhaustive grid does not fit in memory at once).
+func genBatches(o hx.Opts, r *hx.Rand) []func() []*kase {
 	args := allArgs()
 	thorough := o.Tier == "thorough"
 	nGrid, nHostile, nMulti, nPrint, nGofmt := 14000, 3000, 1500, 600, 3000
 	if o.N > 0 {
 		nGrid = o.N
 	}
+	var bs []func() []*kase
 	if thorough {
-		// exhaustive grid
+		nHostile, nMulti, nPrint, nGofmt = 150000, 60000, 20000, 150000
+		// exhaustive grid, one batch per flag subset
 		for fl := 0; fl < 32; fl++ {
-			for wi := range widthForms {
-				for pi := range precForms {
-					for ci := range convs {
-						for _, a := range args {
-							for _, ch := range []bool{false, true} {
-								ks = append(ks, gridCase(fl, wi, pi, ci, a, ch))
+			fl := fl
+			bs = append(bs, func() []*kase {
+				var ks []*kase
+				for wi := range widthForms {
+					for pi := range precForms {
+						for ci := range convs {
+							for _, a := range args {
+								for _, ch := range []bool{false, true} {
+									ks = append(ks, gridCase(fl, wi, pi, ci, a, ch))
+								}
 							}
 						}
 					}
 				}
-			}
+				return ks
+			})
 		}
-		nHostile, nMulti, nPrint, nGofmt = 150000, 60000, 20000, 150000
-	} else {
-		// small systematic core: every conversion x every argument, no flags; every flag subset x conversion on a few arguments
-		for ci := range convs {
-			for _, a := range args {
-				ks = append(ks, gridCase(0, 0, 0, ci, a, false))
-			}
-			for fl := 0; fl < 32; fl++ {
-				for _, x := range []float64{0, 5, -5} {
-					ks = append(ks, gridCase(fl, 3, 0, ci, arg{kind: 'n', x: x}, false))
+	}
+	bs = append(bs, func() []*kase {
+		ks := limitCases()
+		if !thorough {
+			// small systematic core: every conversion x every argument, no flags; every flag subset x conversion on a few arguments
+			for ci := range convs {
+				for _, a := range args {
+					ks = append(ks, gridCase(0, 0, 0, ci, a, false))
+				}
+				for fl := 0; fl < 32; fl++ {
+					for _, x := range []float64{0, 5, -5} {
+						ks = append(ks, gridCase(fl, 3, 0, ci, arg{kind: 'n', x: x}, false))
+					}
 				}
 			}
+			for i := 0; i < nGrid; i++ {
+				ks = append(ks, gridCase(r.Intn(32), r.Intn(len(widthForms)), r.Intn(len(precForms)), r.Intn(len(convs)), args[r.Intn(len(args))], r.Intn(3) == 0))
+			}
 		}
-		for i := 0; i < nGrid; i++ {
-			ks = append(ks, gridCase(r.Intn(32), r.Intn(len(widthForms)), r.Intn(len(precForms)), r.Intn(len(convs)), args[r.Intn(len(args))], r.Intn(3) == 0))
+		for i := 0; i < nHostile; i++ {
+			k := hostileCase(r)
+			tameStars(k)
+			ks = append(ks, k)
 		}
-	}
-	for i := 0; i < nHostile; i++ {
-		k := hostileCase(r)
-		tameStars(k)
-		ks = append(ks, k)
-	}
-	for i := 0; i < nMulti; i++ {
-		k := multiCase(r)
-		tameStars(k)
-		ks = append(ks, k)
-	}
-	ks = append(ks, printCases(r, nPrint)...)
-	ks = append(ks, gofmtCases(r, nGofmt)...)
-	return ks
+		for i := 0; i < nMulti; i++ {
+			k := multiCase(r)
+			tameStars(k)
+			ks = append(ks, k)
+		}
+		ks = append(ks, printCases(r, nPrint)...)
+		ks = append(ks, gofmtCases(r, nGofmt)...)
+		return ks
+	})
+	return bs
 }
